@@ -36,6 +36,7 @@ def annotF : Nat → Mode → Spec → List (Nat × Mode)
     | .and cs d | .or cs d => cs.flatMap (a m) ++ (optSpecs d).flatMap (a m)
     | .not c => a m c
     | .switch cases d => cases.flatMap (fun e => a m e.1 ++ a m e.2) ++ (optSpecs d).flatMap (a m)
+    | .iter s _ => a m s                -- a lazy stream: the mode of the site where it is *written*
     | _ => []
 
 /-- no `Ref(name)` use: its spec comes from the scope, so its mode is that of the use site -/
@@ -53,11 +54,32 @@ def noRefF : Nat → Spec → Bool
     | .coalesce subs d _ _ _ => subs.all n && (optSpecs d).all n
     | .call f as kw => n f && n as && n kw
     | .invoke f _ blocks => n f && blocks.all (fun b => b.2.1.all n && b.2.2.all (fun kv => n kv.2))
-    | .auto s | .fill s | .group s | .not s => n s
+    | .auto s | .fill s | .group s | .not s | .iter s _ => n s
     | .mtch s d => n s && (optSpecs d).all n
     | .and cs d | .or cs d => cs.all n && (optSpecs d).all n
     | .switch cases d => cases.all (fun e => n e.1 && n e.2) && (optSpecs d).all n
     | _ => true
+
+/-- does the spec build a lazily evaluated stream (`Iter`)? -/
+def hasIterF : Nat → Spec → Bool
+  | 0, _ => false
+  | fuel + 1, s =>
+    let h := hasIterF fuel
+    match s with
+    | .iter _ _ => true
+    | .ref _ (some s) => h s
+    | .tuple xs | .list xs | .set _ xs | .pipe xs => xs.any h
+    | .dict _ es => es.any (fun e => h e.1 || h e.2)
+    | .sBind bs | .letB bs => bs.any (fun b => h b.2)
+    | .specW s _ => h s
+    | .coalesce subs d _ _ _ => subs.any h || (optSpecs d).any h
+    | .call f as kw => h f || h as || h kw
+    | .invoke f _ blocks => h f || blocks.any (fun b => b.2.1.any h || b.2.2.any (fun kv => h kv.2))
+    | .auto s | .fill s | .group s | .not s => h s
+    | .mtch s d => h s || (optSpecs d).any h
+    | .and cs d | .or cs d => cs.any h || (optSpecs d).any h
+    | .switch cases d => cases.any (fun e => h e.1 || h e.2) || (optSpecs d).any h
+    | _ => false
 
 def probesOf (evs : List Ev) : List (Nat × Mode) :=
   evs.filterMap (fun e => match e with | .probe id m => some (id, m) | _ => Option.none)
@@ -89,7 +111,7 @@ def hasArgContainer : Nat → Spec → Bool
     | .and cs d | .or cs d => (optSpecs d).any isCont || cs.any h || (optSpecs d).any h
     | .tuple xs | .list xs | .set _ xs | .pipe xs => xs.any h
     | .dict _ es => es.any (fun e => h e.1 || h e.2)
-    | .specW x _ | .auto x | .group x | .not x => h x
+    | .specW x _ | .auto x | .group x | .not x | .iter x _ => h x
     | .letB bs => bs.any (fun b => h b.2)
     | .invoke f _ blocks => h f || blocks.any (fun b => b.2.1.any h || b.2.2.any (fun kv => h kv.2))
     | .ref _ (some x) => h x
